@@ -85,6 +85,37 @@ __CPROVER_ensures((which != NULL && NAME_TRACKED(value) && __CPROVER_return_valu
 __CPROVER_ensures((which != NULL && !NAME_EMPTY(value) && !NAME_TRACKED(value)) ==> which->tracked == __CPROVER_old(which->tracked))
 ;
 
+/* ---- __setter, JSON values: malformed / non-container text is refused with no change;
+ *      whole-object set merges (all members with replace, missing-only without) ---- */
+jwt_value_error_t contract_C15___setter_json(json_t *which, jwt_value_t *value)
+__CPROVER_requires(VJ_IS_OBJECT(which))
+__CPROVER_requires(VJ_TRACKED_OK(which, g_vj_len_a))
+REQ_VALUE(value)
+__CPROVER_requires(value->type == JWT_VALUE_JSON)
+__CPROVER_requires(value->json_val == NULL || (g_vj_len_b < 0x1000000 && __CPROVER_is_fresh(value->json_val, g_vj_len_b + 1) && value->json_val[g_vj_len_b] == 0))
+__CPROVER_requires(g_json_mutations < 1000)
+__CPROVER_requires(SETGET_OBS(which, value))
+__CPROVER_assigns(value->error, g_json_mutations, g_json_version, g_json_loads_flags, g_json_loaded, g_json_loaded_tracked, g_json_update_kind,
+		  which->tracked; which->tracked != NULL: __CPROVER_object_whole(which->tracked))
+__CPROVER_ensures(__CPROVER_return_value == value->error)
+/* text that does not load as an object or array: INVALID, nothing changes */
+__CPROVER_ensures(g_json_loaded == NULL ==> (__CPROVER_return_value == JWT_VALUE_ERR_INVALID &&
+	g_json_mutations == __CPROVER_old(g_json_mutations) && which->tracked == __CPROVER_old(which->tracked)))
+/* duplicates in the text are rejected by the parser (flag passed to jansson) */
+__CPROVER_ensures(g_json_loads_flags == JSON_REJECT_DUPLICATES)
+/* whole-object set: merge */
+__CPROVER_ensures((g_json_loaded != NULL && NAME_EMPTY(value) && __CPROVER_return_value == JWT_VALUE_ERR_NONE) ==> (
+	g_json_update_kind == (value->replace ? 1 : 2) &&
+	(value->replace ? (g_json_loaded_tracked != NULL ? which->tracked == g_json_loaded_tracked : which->tracked == __CPROVER_old(which->tracked))
+			: (__CPROVER_old(which->tracked) != NULL ? which->tracked == __CPROVER_old(which->tracked)
+			   : which->tracked == g_json_loaded_tracked))))
+/* named JSON value: same existence/replace gate as scalars */
+__CPROVER_ensures((g_json_loaded != NULL && NAME_TRACKED(value) && __CPROVER_old(which->tracked) != NULL && !value->replace) ==>
+	(__CPROVER_return_value == JWT_VALUE_ERR_EXIST && g_json_mutations == __CPROVER_old(g_json_mutations) &&
+	 which->tracked == __CPROVER_old(which->tracked)))
+__CPROVER_ensures((g_json_loaded != NULL && NAME_TRACKED(value) && __CPROVER_return_value == JWT_VALUE_ERR_NONE) ==> which->tracked == g_json_loaded)
+;
+
 /* ---- __deleter: one name, or everything when no name is given ---- */
 jwt_value_error_t contract_C15___deleter(json_t *which, const char *field)
 __CPROVER_requires(VJ_IS_OBJECT(which))
